@@ -8,7 +8,7 @@ from .driver import Program, pack
 from .pp import *
 
 
-def make(pid, macro, profile, idx, seed, gates=None, heavy=False):
+def make(pid, macro, profile, idx, seed, gates=None, heavy=False, force_handler=False):
     r = rng(seed, pid)
     is_async, is_try, is_spawn = KINDS[macro]
     if is_try:
@@ -16,7 +16,7 @@ def make(pid, macro, profile, idx, seed, gates=None, heavy=False):
     else:
         carrier = ["raw", "opt"][idx % 2]
     handler = None
-    if idx % 3 == 1:
+    if idx % 3 == 1 or force_handler:
         handler = ("map" if idx % 2 else "and_then") if is_try else "then"
     lets = {}
     for b in range(len(profile)):
@@ -76,6 +76,15 @@ def programs(tier, seed):
         for prof in profs:
             i += 1
             ps.append(make("p%04d" % i, macro, prof, i, seed, gates=gates, heavy=False))
+    # wide-handler family: >= 4 branches with a (non-symmetric: reversing) handler in every kind - a handler argument order that
+    # differs from branch order only beyond three branches, or only in one kind, is a counterexample here
+    wide = {"join": [(1, 1, 1, 1), (2, 1, 2, 1), (1, 1, 1, 1, 1)], "try_join": [(1, 1, 1, 1), (1, 2, 1, 2), (1, 1, 1, 1, 1)],
+            "join_spawn": [(1, 1, 1, 1), (1, 2, 1, 1), (1, 1, 1, 1, 1)], "try_join_spawn": [(1, 1, 1, 1), (2, 1, 2, 1), (1, 1, 1, 1, 1)],
+            "join_async": [(1, 1, 1, 1)], "try_join_async": [(1, 1, 1, 1)], "join_async_spawn": [(1, 1, 1, 1)], "try_join_async_spawn": [(1, 1, 1, 1)]}
+    for macro, profs in wide.items():
+        for prof in profs:
+            i += 1
+            ps.append(make("p%04d" % i, macro, prof, i, seed, force_handler=True))
     return ps
 
 
@@ -85,11 +94,11 @@ def generate(tier, seed):
 
 META = dict(
     level="model_checking",
-    rule="one program per (macro kind, depth profile); carrier, handler (every third program, written first/second/last), `let` subset and step operators vary with "
+    rule="one program per (macro kind, depth profile); carrier, handler (every third program, written first/second/last; plus the wide-handler family: 4 and 5 branches with a handler in all eight kinds), `let` subset and step operators vary with "
          "index and seed; packed 8 programs per Kani query; non-trivial = passed with its end-reached witness; distinct = distinct macro invocation texts",
     functions_encoded=["expansions of join!, try_join!, join_spawn!, try_join_spawn!, join_async!, try_join_async!, join_async_spawn!, try_join_async_spawn! "
                        "(JoinOutput::extract_results_tuple, generate_indexed_step_results_name, generate_results_transposer, generate_handle)"],
-    bounds=["branches <= 3 (quick) / 4 (thorough), steps <= 3", "async: <= 3 branches x <= 2 steps, gates always ready", "payloads u8, every position succeeds (failures: C05)"],
+    bounds=["branches <= 3 (quick) / 4 (thorough), steps <= 3; wide-handler family: 4 and 5 branches, steps <= 2", "async: <= 3 branches x <= 2 steps, gates always ready", "payloads u8, every position succeeds (failures: C05)"],
     outside=["more branches/steps", "branches of different types (a swap would not type-check)"],
     assumptions=["thread and tokio models of DESIGN.md 2.2", "format! model returns an empty string (names are not observed here)"],
 )
